@@ -9,6 +9,9 @@
 // A Jacobian triple (X,Y,Z) represents (x,y) when X = x Z^2, Y = y Z^3; an extended one (X,Y,ZZ,ZZZ) when
 // ZZ = t^2, ZZZ = t^3, X = x ZZ, Y = y ZZZ. Each result clause has the form  X3 * den == num * Z3^2  (the result
 // represents the textbook point) plus the exact scaling Z3 (which shows that the result is finite when it should be).
+// The parametrisation X = x Z^2 forces X = 0 when Z = 0, but the library represents the point at infinity by
+// (1, 1, 0): every function with parametrised operands is therefore analysed again under "scenario" variants in
+// which an operand has Z = 0 (resp. ZZ = ZZZ = 0) and ARBITRARY X, Y.
 
 package bw6761
 
@@ -20,6 +23,9 @@ package bw6761
 //@ let p.Y = py*p.Z*p.Z*p.Z
 //@ let q.X = qx*q.Z*q.Z
 //@ let q.Y = qy*q.Z*q.Z*q.Z
+//@ scenario p-infinity: p.Z = 0; free p.X; free p.Y
+//@ scenario q-infinity: q.Z = 0; free q.X; free q.Y
+//@ scenario both-infinity: p.Z = 0; free p.X; free p.Y; q.Z = 0; free q.X; free q.Y
 //@ ghost pinf = iszero(p.Z)
 //@ ghost qinf = iszero(q.Z)
 //@ ghost same = iszero(q.X*p.Z*p.Z - p.X*q.Z*q.Z) && iszero(q.Y*p.Z*p.Z*p.Z - p.Y*q.Z*q.Z*q.Z)
@@ -41,9 +47,11 @@ package bw6761
 //@ ghost-param px, py
 //@ let p.X = px*p.Z*p.Z
 //@ let p.Y = py*p.Z*p.Z*p.Z
-//@ ensures[x] p.X * 4*py*py == ecDblXNum(px, py, 0) * p.Z*p.Z
-//@ ensures[y] p.Y * 8*py*py*py == ecDblYNum(px, py, 0) * p.Z*p.Z*p.Z
-//@ ensures[z] p.Z == 2*py*pow(old(p.Z),4)
+//@ scenario p-infinity: p.Z = 0; free p.X; free p.Y
+//@ ensures[x] old(p.Z) != 0 ==> p.X * 4*py*py == ecDblXNum(px, py, 0) * p.Z*p.Z
+//@ ensures[y] old(p.Z) != 0 ==> p.Y * 8*py*py*py == ecDblYNum(px, py, 0) * p.Z*p.Z*p.Z
+//@ ensures[z] old(p.Z) != 0 ==> p.Z == 2*py*pow(old(p.Z),4)
+//@ ensures[infinity] old(p.Z) == 0 ==> p.Z == 0
 //@ ensures[result] result == p
 //@ modifies p
 //@ end
@@ -54,9 +62,11 @@ package bw6761
 //@ ghost-param px, py
 //@ let q.X = px*q.Z*q.Z
 //@ let q.Y = py*q.Z*q.Z*q.Z
-//@ ensures[x] p.X * 4*py*py == ecDblXNum(px, py, 0) * p.Z*p.Z
-//@ ensures[y] p.Y * 8*py*py*py == ecDblYNum(px, py, 0) * p.Z*p.Z*p.Z
-//@ ensures[z] p.Z == 2*py*pow(old(q.Z),4)
+//@ scenario q-infinity: q.Z = 0; free q.X; free q.Y
+//@ ensures[x] old(q.Z) != 0 ==> p.X * 4*py*py == ecDblXNum(px, py, 0) * p.Z*p.Z
+//@ ensures[y] old(q.Z) != 0 ==> p.Y * 8*py*py*py == ecDblYNum(px, py, 0) * p.Z*p.Z*p.Z
+//@ ensures[z] old(q.Z) != 0 ==> p.Z == 2*py*pow(old(q.Z),4)
+//@ ensures[infinity] old(q.Z) == 0 ==> p.Z == 0
 //@ ensures[result] result == p
 //@ modifies p
 //@ end
@@ -77,6 +87,7 @@ package bw6761
 //@ ghost-param px, py
 //@ let p.X = px*p.Z*p.Z
 //@ let p.Y = py*p.Z*p.Z*p.Z
+//@ scenario p-infinity: p.Z = 0; free p.X; free p.Y
 //@ ghost ainf = iszero(a.X) && iszero(a.Y)
 //@ ghost pinf = iszero(p.Z)
 //@ ghost same = iszero(a.X*p.Z*p.Z - p.X) && iszero(a.Y*p.Z*p.Z*p.Z - p.Y)
@@ -118,6 +129,9 @@ package bw6761
 //@ let p.Y = py*p.Z*p.Z*p.Z
 //@ let q.X = qx*q.Z*q.Z
 //@ let q.Y = qy*q.Z*q.Z*q.Z
+//@ scenario p-infinity: p.Z = 0; free p.X; free p.Y
+//@ scenario q-infinity: q.Z = 0; free q.X; free q.Y
+//@ scenario both-infinity: p.Z = 0; free p.X; free p.Y; q.Z = 0; free q.X; free q.Y
 //@ ghost pinf = iszero(p.Z)
 //@ ghost qinf = iszero(q.Z)
 //@ ghost same = iszero(q.X*p.Z*p.Z - p.X*q.Z*q.Z) && iszero(-q.Y*p.Z*p.Z*p.Z - p.Y*q.Z*q.Z*q.Z)
@@ -273,6 +287,9 @@ package bw6761
 //@ let q.ZZZ = s*s*s
 //@ let q.X = qx*s*s
 //@ let q.Y = qy*s*s*s
+//@ scenario p-infinity: p.ZZ = 0; p.ZZZ = 0; free p.X; free p.Y
+//@ scenario q-infinity: q.ZZ = 0; q.ZZZ = 0; free q.X; free q.Y
+//@ scenario both-infinity: p.ZZ = 0; p.ZZZ = 0; free p.X; free p.Y; q.ZZ = 0; q.ZZZ = 0; free q.X; free q.Y
 //@ ghost qinf = iszero(q.ZZ)
 //@ ghost pinf = iszero(p.ZZ)
 //@ ghost eqx = iszero(q.X*p.ZZ - p.X*q.ZZ)
@@ -298,9 +315,11 @@ package bw6761
 //@ let q.ZZZ = s*s*s
 //@ let q.X = qx*s*s
 //@ let q.Y = qy*s*s*s
-//@ ensures[x] p.X * 4*qy*qy == ecDblXNum(qx, qy, 0) * p.ZZ
-//@ ensures[y] p.Y * 8*qy*qy*qy == ecDblYNum(qx, qy, 0) * p.ZZZ
-//@ ensures[z] p.ZZ == pow(2*qy*pow(s,4),2) && p.ZZZ == pow(2*qy*pow(s,4),3)
+//@ scenario q-infinity: q.ZZ = 0; q.ZZZ = 0; free q.X; free q.Y
+//@ ensures[x] old(q.ZZ) != 0 ==> p.X * 4*qy*qy == ecDblXNum(qx, qy, 0) * p.ZZ
+//@ ensures[y] old(q.ZZ) != 0 ==> p.Y * 8*qy*qy*qy == ecDblYNum(qx, qy, 0) * p.ZZZ
+//@ ensures[z] old(q.ZZ) != 0 ==> p.ZZ == pow(2*qy*pow(s,4),2) && p.ZZZ == pow(2*qy*pow(s,4),3)
+//@ ensures[infinity] old(q.ZZ) == 0 && old(q.ZZZ) == 0 ==> p.ZZ == 0 && p.ZZZ == 0
 //@ ensures[result] result == p
 //@ modifies p
 //@ end
@@ -333,6 +352,7 @@ package bw6761
 //@ let p.ZZZ = t*t*t
 //@ let p.X = px*t*t
 //@ let p.Y = py*t*t*t
+//@ scenario p-infinity: p.ZZ = 0; p.ZZZ = 0; free p.X; free p.Y
 //@ ghost ainf = iszero(a.X) && iszero(a.Y)
 //@ ghost pinf = iszero(p.ZZ)
 //@ ghost eqx = iszero(a.X*p.ZZ - p.X)
@@ -358,6 +378,7 @@ package bw6761
 //@ let p.ZZZ = t*t*t
 //@ let p.X = px*t*t
 //@ let p.Y = py*t*t*t
+//@ scenario p-infinity: p.ZZ = 0; p.ZZZ = 0; free p.X; free p.Y
 //@ ghost ainf = iszero(a.X) && iszero(a.Y)
 //@ ghost pinf = iszero(p.ZZ)
 //@ ghost eqx = iszero(a.X*p.ZZ - p.X)
@@ -382,7 +403,9 @@ package bw6761
 //@ let q.ZZZ = s*s*s
 //@ let q.X = qx*s*s
 //@ let q.Y = qy*s*s*s
-//@ ensures[value] p.X == qx*p.Z*p.Z && p.Y == qy*p.Z*p.Z*p.Z && p.Z == pow(s,3)
+//@ scenario q-infinity: q.ZZ = 0; q.ZZZ = 0; free q.X; free q.Y
+//@ ensures[value] old(q.ZZ) != 0 ==> p.X == qx*p.Z*p.Z && p.Y == qy*p.Z*p.Z*p.Z && p.Z == pow(s,3)
+//@ ensures[infinity] old(q.ZZZ) == 0 ==> p.Z == 0
 //@ ensures[result] result == p
 //@ modifies p
 //@ end
